@@ -191,7 +191,8 @@ class C10(Prop):
             return {'kind': 'files', 'pre': pre, 'between': between, 'ticks': ticks, 'process_all': rng.random() < .3}
         sources, nodes = gen_network(rng, self.focus)
         longest = max([len(s['queue']) for s in sources] + [1])
-        return {'sources': sources, 'nodes': nodes, 'ticks': rng.randint(1, longest + 3)}
+        return {'sources': sources, 'nodes': nodes, 'ticks': rng.randint(1, longest + 3),
+                'batch': rng.choice([1.0, 1.0, 0.5, 0.1, 0.1, 0.2, 0.05, 0.3])}
 
     def fixed_cases(self, tier):
         diamond = {'sources': [{'queue': [[1, 2], [], [3]], 'oneAtATime': True, 'default': None}],
@@ -258,7 +259,7 @@ class C10(Prop):
         with VirtualStreaming() as vs:
             try:
                 sc = ps.Context()
-                ssc = ps.streaming.StreamingContext(sc, 1.0)
+                ssc = ps.streaming.StreamingContext(sc, float(case.get('batch', 1.0)))
                 stream = ssc.textFileStream(d + '/*', process_all=case['process_all'])
                 a, b = [], []
                 stream.foreachRDD(self._capture(a))
@@ -298,7 +299,7 @@ class C10(Prop):
         with VirtualStreaming() as vs:
             try:
                 sc = ps.Context()
-                ssc = ps.streaming.StreamingContext(sc, 1.0)
+                ssc = ps.streaming.StreamingContext(sc, float(case.get('batch', 1.0)))
                 ds, polls, cap = [], [], {}
                 for i, n in enumerate(case['nodes']):
                     k = n['kind']
@@ -345,7 +346,10 @@ class C10(Prop):
                     elif k in ('join', 'leftOuterJoin', 'rightOuterJoin', 'fullOuterJoin'):
                         d = getattr(ds[n['a']], k)(ds[n['b']])
                     elif k == 'window':
-                        d = ds[n['prev']].window(float(n['w']), float(n['s']))
+                        # durations are given as a multiple of the batch interval, computed in floating point the way a
+                        # caller would (3 * 0.1 is 0.30000000000000004): the window must still span exactly w intervals
+                        bi = float(case.get('batch', 1.0))
+                        d = ds[n['prev']].window(n['w'] * bi, n['s'] * bi)
                     elif k == 'state':
                         d = ds[n['prev']].updateStateByKey(UPD[n['upd']])
                     elif k == 'out':
